@@ -41,12 +41,12 @@ pub fn access_size(n: u64) -> AccessSize {
 pub fn gas(s: &Sx) -> GAS {
     let g = s.list();
     let n = |i: usize| g[i].num();
-    match n(0) {
+    raw(match n(0) {
         0 => GAS::new(address_space(n(1)), n(2) as u8, n(3) as u8, access_size(n(4)), n(5)),
         1 => GAS::new_pci_config(n(1) as u8, access_size(n(2)), n(3) as u8, n(4) as u8, n(5) as u16),
         2 => GAS::default(),
         _ => panic!("harness: bad gas"),
-    }
+    })
 }
 
 pub const SPACES: [u64; 13] = [0, 1, 2, 3, 4, 5, 6, 7, 8, 9, 0xa, 0xb, 0x7f];
@@ -180,7 +180,7 @@ pub fn run(case: &Sx, out: &mut Vec<Ev>) {
                         _ => panic!("harness: bad root port setter"),
                     };
                 }
-                t.add_structure(s);
+                t.add_structure(raw(s));
                 alone = None;
             }
             2 => {
@@ -202,7 +202,7 @@ pub fn run(case: &Sx, out: &mut Vec<Ev>) {
                         _ => panic!("harness: bad aer device setter"),
                     };
                 }
-                t.add_structure(s);
+                t.add_structure(raw(s));
                 alone = None;
             }
             3 => {
@@ -227,7 +227,7 @@ pub fn run(case: &Sx, out: &mut Vec<Ev>) {
                         _ => panic!("harness: bad bridge setter"),
                     };
                 }
-                t.add_structure(s);
+                t.add_structure(raw(s));
                 alone = None;
             }
             4 => {
@@ -244,7 +244,7 @@ pub fn run(case: &Sx, out: &mut Vec<Ev>) {
                         _ => panic!("harness: bad ghes setter"),
                     };
                 }
-                t.add_structure(s);
+                t.add_structure(raw(s));
                 alone = None;
             }
             5 => {
@@ -264,7 +264,7 @@ pub fn run(case: &Sx, out: &mut Vec<Ev>) {
                         _ => panic!("harness: bad ghes v2 setter"),
                     };
                 }
-                t.add_structure(s);
+                t.add_structure(raw(s));
                 alone = None;
             }
             20 => {
